@@ -85,13 +85,45 @@ def run(ctx):
                 "wrong length, lists, None, bool, containers).  Non-trivial = the judge decided refused-or-exact; distinct by (layout, attribute, value)")
     ctx.defs_file()
     walk.CFGTYPES = {e["n"]: e["t"] for e in ctx.defs["cfgdb"]}
-    lays = [l for l in walk.load_layouts(ctx, "MC_Walk_quick.cfg") if l["reachable"] and l["c"] == 1]
+    alllays = walk.load_layouts(ctx, "MC_Walk_quick.cfg")
+
+    def _nested(l):
+        return any(len(e["n"]) > 6 and e["n"][-6] == "_" and e["n"][-3] == "_" and e["n"][-5:-3].isdigit() and e["n"][-2:].isdigit() for e in l["lay"])
+
+    lays = [l for l in alllays if l["reachable"] and (l["c"] == 1 or (l["c"] == 2 and _nested(l)))]
     cfgdb = ctx.defs["cfgdb"]
+
+    # (mode, definition, count, view) -> layout: the other view of a layout tells which keyword names are NOT attributes in this one
+    byview = {(l["m"], l["name"], l["c"], bool(l["pbf"])): l for l in alllays}
 
     def gen():
         for li, l in enumerate(lays):
             P0 = build.zero_hp(l, walk.fill(l, "count", rng, cfgdb))
             structural = set(f["n"] for f in l["fixes"]) | set(c03_disc(l))
+            # keywords that name NO attribute of the message in this view: the raw bitfield's own name while flags are exposed (and a
+            # flag's name while they are not), an index beyond the group count, the bare name of a grouped attribute, a foreign name:
+            # whatever their value, the message is refused or built exactly as without them
+            if li % 2 == 0:
+                mine = {e["n"] for e in l["lay"]}
+                other = byview.get((l["m"], l["name"], l["c"], not l["pbf"]))
+                strangers = [e["n"] for e in (other["lay"] if other else []) if e["n"] not in mine and e["k"] in ("f", "x")][:3]
+                grouped = [e["n"] for e in l["lay"] if e["x"] == 1 and e["n"][-3:-2] == "_" and e["n"][-2:].isdigit()][:1]
+                for g in grouped:
+                    strangers += [g[:-3], g[:-2] + "%02d" % (int(g[-2:]) + l["c"] + 7)]
+                strangers.append("fooBar")
+                for sname in strangers:
+                    if sname in mine or sname == "payload":
+                        continue
+                    for v in ("b'\\x18\\x00'", "3", "b'\\xff\\xff\\xff\\xff'", "[1, 2]"):
+                        yield ("c15", {"_k": "stranger:%d:%s:%s" % (li, sname, v), "lay": l, "P0": P0.hex(), "tgt": sname, "value": v, "keep": sorted(structural),
+                                       "structural": 0, "synth": [] if l["pbf"] else sorted({x["n"] for x in l["lay"] if x["k"] == "f" and x["t"][:1] == "X" and x["x"] == 1})})
+            # nested groups: attributes with two index levels whose indices differ (supplied sparsely: structural attributes + this one)
+            nested = [e for e in l["lay"] if e["x"] == 1 and e["k"] == "f" and len(e["n"]) > 6 and e["n"][-6] == "_" and e["n"][-3] == "_"
+                      and e["n"][-5:-3].isdigit() and e["n"][-2:].isdigit() and e["n"][-5:-3] != e["n"][-2:]]
+            for e in nested[:6]:
+                for v in bad_values(e, rng)[:4] + ["5", "1"]:
+                    yield ("c15", {"_k": "nested:%d:%s:%s" % (li, e["n"], v), "lay": l, "P0": P0.hex(), "tgt": e["n"], "value": v, "keep": sorted(structural),
+                                   "structural": 0, "synth": []})
             chosen = {}
             for e in l["lay"]:
                 # reserved flags are no attributes: they are not exposed and take no keyword (a few are still offered one: whatever
